@@ -345,6 +345,12 @@ func (s *c21srv) handle(c *scriptsrv.Conn, reqID uint32, r ua.Request) (ua.Respo
 			return nil, true
 		}
 		kind, known, nacks, ndata, dkind := s.c.L[k], s.c.L[k+1], s.c.L[k+2], s.c.L[k+3], s.c.L[k+4]
+		// nacks >= 10: the acknowledgement results are all a retryable status (the client keeps the acknowledgements)
+		ackBad := 0
+		if nacks >= 10 {
+			nacks -= 10
+			ackBad = 1<<30 - 1
+		}
 		sid := uint32(1)
 		if known == 0 {
 			sid = 77
@@ -354,7 +360,7 @@ func (s *c21srv) handle(c *scriptsrv.Conn, reqID uint32, r ua.Request) (ua.Respo
 			nm.NotificationData = append(nm.NotificationData, notifData(dkind))
 		}
 		return wrap(kind, r, &ua.PublishResponse{ResponseHeader: hdr(), SubscriptionID: sid, AvailableSequenceNumbers: []uint32{}, NotificationMessage: nm,
-			Results: statuses(nacks, 0), DiagnosticInfos: []*ua.DiagnosticInfo{}}), true
+			Results: statuses(nacks, ackBad), DiagnosticInfos: []*ua.DiagnosticInfo{}}), true
 	}
 	return nil, false
 }
@@ -429,7 +435,7 @@ func c21Gen(r *rng.R, i int) *Case {
 			if k == 1 {
 				kd = kind()
 			}
-			c.L = append(c.L, kd, r.Pick(1, 1, 1, 0), r.Intn(3), r.Intn(3), r.Intn(4))
+			c.L = append(c.L, kd, r.Pick(1, 1, 1, 0), r.Intn(3)+r.Pick(0, 0, 10), r.Intn(3), r.Intn(4))
 		}
 	case "transfer":
 		c.P["nsubs"] = r.Range(1, 2)
@@ -500,6 +506,12 @@ func c21Directed() []*Case {
 	add("publish", nil, []int{0, 1, 0, 1, 0, 0, 1, 0, 1, 0})
 	add("publish", nil, []int{0, 1, 0, 1, 0, 0, 1, 2, 1, 0})
 	add("publish", nil, []int{0, 1, 0, 2, 0, 0, 1, 3, 0, 0, 0, 1, 0, 1, 2})
+	// two and three pending acknowledgements (an earlier one answered with a retryable status), then a result list
+	// that is shorter but not empty / longer / empty
+	for _, n := range []int{0, 1, 2, 3} {
+		add("publish", nil, []int{0, 1, 0, 1, 0, 0, 1, 11, 1, 0, 0, 1, n, 1, 0, 0, 1, 0, 0, 0})
+		add("publish", nil, []int{0, 1, 0, 1, 0, 0, 1, 11, 1, 0, 0, 1, 12, 1, 0, 0, 1, n, 1, 0, 0, 1, 0, 0, 0})
+	}
 	return cs
 }
 
